@@ -381,6 +381,14 @@ pub mod thread;
 #[doc(inline)]
 pub use crate::model::model;
 
+/// Verification hooks (only with `--cfg loom_verif`).
+#[cfg(loom_verif)]
+pub mod verif {
+    pub use crate::rt::verif::{
+        fingerprint, set_observer, thread_state, Branch, BranchKind, Iteration,
+    };
+}
+
 if_futures! {
     pub mod future;
 }
